@@ -41,6 +41,7 @@ inductive PyVal where
   | json (t : Str)       -- a JSON-able object identified by `json.dumps`
   | pickled (b : Str)    -- any object, identified by its pickle bytes
   | sqlobj (id : Int)    -- an SQLObject instance with an int id
+  | sqlobjS (id : Str)   -- an SQLObject instance of a class with idType = str
   | other                -- anything else
 deriving DecidableEq, Repr
 
@@ -76,7 +77,9 @@ inductive ColT where
   | decimal | currency | decimalString
   | enum (vals : List Str)
   | blob | pickle | uuid | json
-  | fkInt
+  | fkInt      -- ForeignKey: int-id class → int-id class
+  | fkStr      -- ForeignKey: int-id class → str-id class (ids are text)
+  | fkIntS     -- ForeignKey: str-id class → int-id class
 deriving DecidableEq, Repr
 
 /-! ## decimal digits -/
@@ -156,6 +159,7 @@ def lit : PyVal → Res Str
   | .json _ => .reject
   | .pickled _ => .unmodelled
   | .sqlobj id => .ok (reprInt id)
+  | .sqlobjS id => .ok (quoteStr id)      -- `SQLObject.__sqlrepr__` = sqlrepr(self.id)
   | .other => .unmodelled
 
 /-! ## SQLite: literal evaluation, affinity, storage -/
@@ -270,6 +274,8 @@ def sqliteType : ColT → Str
   | .enum _ => Extracted.ty_enum
   | .uuid => Extracted.ty_uuid
   | .fkInt => Extracted.ty_keyInt
+  | .fkStr => if Extracted.fkTypeFollowsReferenced then Extracted.ty_keyStr else Extracted.ty_keyInt
+  | .fkIntS => if Extracted.fkTypeFollowsReferenced then Extracted.ty_keyInt else Extracted.ty_keyStr
 
 def aff (T : ColT) : Aff := affinityOf (sqliteType T)
 
@@ -540,6 +546,14 @@ def fkFromPython : PyVal → Res PyVal
   | .time .. => .invalid
   | _ => .unmodelled
 
+/-- ForeignKeyValidator.from_python when the referenced class has `idType = str`: `str(value)` -/
+def fkStrFromPython : PyVal → Res PyVal
+  | .none => .ok .none
+  | .sqlobjS id => .ok (.str id)
+  | .str s => .ok (.str s)
+  | .int i => .ok (.str (reprInt i))
+  | _ => .unmodelled
+
 def enumV (vals : List Str) : PyVal → Res PyVal
   | .none => .ok .none
   | .str s => if vals.contains s then .ok (.str s) else .invalid
@@ -609,7 +623,8 @@ def toDb : ColT → PyVal → Res PyVal
     | .json t => .ok (.str t)
     | .bytes _ | .datetime .. | .date .. | .time .. | .decimal _ | .uuid _ | .sqlobj _ => .invalid
     | _ => .unmodelled
-  | .fkInt, v => fkFromPython v
+  | .fkInt, v | .fkIntS, v => fkFromPython v
+  | .fkStr, v => fkStrFromPython v
 
 def toPy : ColT → PyVal → Res PyVal
   | .string, v => stringV false v
@@ -659,7 +674,7 @@ def toPy : ColT → PyVal → Res PyVal
     | .json t => .ok (.json t)
     | .other => .unmodelled
     | _ => .invalid
-  | .fkInt, v => .ok v
+  | .fkInt, v | .fkStr, v | .fkIntS, v => .ok v
 
 /-! ## the pipeline -/
 
@@ -754,6 +769,10 @@ def coerces (T : ColT) (x v : PyVal) : Bool :=
   | .bool, .int i, .bool b => b == (i != 0)
   | .fkInt, .str s, .int i => intText s == some i
   | .fkInt, .sqlobj id, .int i => id == i
+  | .fkIntS, .str s, .int i => intText s == some i
+  | .fkIntS, .sqlobj id, .int i => id == i
+  | .fkStr, .sqlobjS id, .str t => id == t
+  | .fkStr, .int i, .str t => t == reprInt i
   | .decimalString, .int i, .decimal t => t == reprInt i
   | .decimal, .int i, .decimal t => t == reprInt i
   | .currency, .int i, .decimal t => t == reprInt i
